@@ -1126,3 +1126,49 @@ func (ex *Exec) checkSitesExist(fc *FuncContract) {
 		}
 	}
 }
+
+// ---- interior pointers passed to callees under contract ----
+
+// interiorArgs replaces every argument that is an interior pointer to a struct (the address of a struct-typed field
+// or local, e.g. the receiver of p.scanner.Scan()) by a reference to a fresh object holding a copy of the pointee,
+// and returns the function that copies the object's fields back after the call. Sound when the callee neither
+// retains the pointer nor reaches the same struct through another path during the call; recorded as an assumption.
+func (ex *Exec) interiorArgs(key string, args []Val, pos token.Pos) func() {
+	var outs []func()
+	for i, a := range args {
+		if a.E != "" || a.P == nil || a.T == nil {
+			continue
+		}
+		pt, ok := a.T.Underlying().(*types.Pointer)
+		if !ok {
+			continue
+		}
+		if _, ok := pt.Elem().Underlying().(*types.Struct); !ok && !isSliceT(pt.Elem()) {
+			continue
+		}
+		orig := a
+		cur := ex.load(ex.curSt, orig, ex.curPC, pos)
+		obj := ex.newObject(ex.curSt, pt.Elem(), "interior")
+		ex.storePlain(ex.curSt, obj, cur)
+		obj.T = a.T
+		args[i] = obj
+		ex.em.Assumed["the struct whose address is passed to "+key+" from "+funcKey(ex.root().fn)+" is copied in and out around the call (the callee does not retain the pointer)"] = true
+		outs = append(outs, func() {
+			nv := ex.loadPlain(ex.curSt, obj)
+			ex.store(ex.curSt, orig, nv, ex.curPC, pos)
+		})
+	}
+	if len(outs) == 0 {
+		return nil
+	}
+	return func() {
+		for _, f := range outs {
+			f()
+		}
+	}
+}
+
+func isSliceT(t types.Type) bool {
+	_, ok := t.Underlying().(*types.Slice)
+	return ok
+}
